@@ -508,6 +508,12 @@ pub fn cfg_strategy(depth: u32) -> BoxedStrategy<Cfg> {
     .boxed()
 }
 
+/// Mostly nesting <= 2; one stack in twelve may nest three adapters (altroot over overlay over
+/// altroot, overlay in overlay in overlay, ...).
+pub fn cfg_deep() -> BoxedStrategy<Cfg> {
+    prop_oneof![11 => cfg_strategy(2), 1 => cfg_strategy(3)].boxed()
+}
+
 /// Overlays with the read-only EmbeddedFS (fixture) as a lower layer: "embedded assets that can
 /// be overridden at run time".
 pub fn emb_overlay_cfg() -> BoxedStrategy<Cfg> {
